@@ -255,6 +255,14 @@ fn run_const(t: &Table, pairs: Pairs<'_, u8>) -> String {
             let p: ConstPrattParser<u8, 6> = ConstPrattParser::new_const(const_entries::<6>(t));
             run_map!(p, pairs)
         }
+        30 => {
+            let p: ConstPrattParser<u8, 30> = ConstPrattParser::new_const(const_entries::<30>(t));
+            run_map!(p, pairs)
+        }
+        70 => {
+            let p: ConstPrattParser<u8, 70> = ConstPrattParser::new_const(const_entries::<70>(t));
+            run_map!(p, pairs)
+        }
         _ => unreachable!(),
     }
 }
@@ -277,6 +285,15 @@ fn wide_tables() -> Vec<Table> {
         }
     }
     out
+}
+
+/// Tall tables: 30 and 70 levels of one infix operator each (alternating associativity), so that
+/// precedence values leave every small integer width.
+fn tall_tables() -> Vec<Table> {
+    [30u8, 70]
+        .into_iter()
+        .map(|n| (1..=n).map(|l| OpDef { level: l, kind: if l % 3 == 0 { Kind::InfixR } else { Kind::InfixL } }).collect())
+        .collect()
 }
 
 /// PrecClimber applies to infix-only tables whose levels each have a single associativity.
@@ -356,7 +373,7 @@ fn check_table(t: &Table, k: usize, stats: &mut Stats) {
     let seqs = sequences(t, k);
     stats.inc("tables");
     for seq in &seqs {
-        let input: String = seq.iter().map(|t| if *t == 0 { 'n' } else { (b'a' + *t) as char }).collect();
+        let input: String = seq.iter().map(|t| if *t == 0 { 'n' } else { (b'a' + (*t % 24)) as char }).collect();
         let want = shunting_yard(t, seq);
         stats.inc("evaluations");
         if seq.len() > 1 {
@@ -432,7 +449,7 @@ fn main() {
             .collect();
         let seq: Seq = case["sequence"].as_array().unwrap().iter().map(|s| { let s = s.as_str().unwrap(); if s.starts_with('n') { 0 } else { s[1..].split('@').next().unwrap().parse().unwrap() } }).collect();
         let mut st = Stats::new();
-        let input: String = seq.iter().map(|t| if *t == 0 { 'n' } else { (b'a' + *t) as char }).collect();
+        let input: String = seq.iter().map(|t| if *t == 0 { 'n' } else { (b'a' + (*t % 24)) as char }).collect();
         let want = shunting_yard(&t, &seq);
         let got = catch(|| run_map!(pratt(&t), build_pairs(&input, &seq)));
         let gotc = catch(|| run_const(&t, build_pairs(&input, &seq)));
@@ -455,6 +472,8 @@ fn main() {
     let mut ts = tables(4, 3);
     let n_plain = ts.len();
     ts.extend(wide_tables());
+    let n_wide = ts.len();
+    ts.extend(tall_tables());
     let jobs = cfg.jobs;
     let mut stats = Stats::new();
     let parts: Vec<Stats> = std::thread::scope(|sc| {
@@ -465,7 +484,7 @@ fn main() {
                     let mut st = Stats::new();
                     for (ti, t) in ts.iter().enumerate().skip(j).step_by(jobs) {
                         // small tables get longer sequences, the wide ones shorter
-                        let kk = if ti >= n_plain { 7 } else if t.len() <= 2 { k + 2 } else { k };
+                        let kk = if ti >= n_wide { 5 } else if ti >= n_plain { 7 } else if t.len() <= 2 { k + 2 } else { k };
                         check_table(t, kk, &mut st);
                         st.max("max_sequence_length", kk as u64);
                     }
@@ -479,7 +498,7 @@ fn main() {
         stats.merge(p);
     }
     let mut cov = vcore::Map::new();
-    cov.insert("rule".into(), json!("tables = multisets of <= 4 operators over {prefix, postfix, infix-left, infix-right} x levels 1..3 (levels contiguous, at most two identical operators), plus wide tables with 3..5 infix operators of one associativity on one level, alone and beside a second level (sequences of at most 7 tokens; PrecClimber chains built left-nested, right-nested and balanced; PrecClimber::new_const with natural, reversed and rotated tables); for each table every well-formed sequence prefix* operand postfix* (infix prefix* operand postfix*)* of at most K tokens (K+2 for tables with <= 2 operators), fed as flat Pairs built with PairsBuilder; PrattParser, ConstPrattParser<N> and (infix-only, one associativity per level) PrecClimber must return exactly the S-expression of an independent shunting-yard with the statement's binding powers; labels carry token positions, so equality implies every operator applied once and operand order preserved. Non-trivial: sequences of more than one token"));
+    cov.insert("rule".into(), json!("tables = multisets of <= 4 operators over {prefix, postfix, infix-left, infix-right} x levels 1..3 (levels contiguous, at most two identical operators), plus wide tables with 3..5 infix operators of one associativity on one level, alone and beside a second level (sequences of at most 7 tokens), and tall tables of 30 and 70 single-operator levels (at most 5 tokens; PrecClimber chains built left-nested, right-nested and balanced; PrecClimber::new_const with natural, reversed and rotated tables); for each table every well-formed sequence prefix* operand postfix* (infix prefix* operand postfix*)* of at most K tokens (K+2 for tables with <= 2 operators), fed as flat Pairs built with PairsBuilder; PrattParser, ConstPrattParser<N> and (infix-only, one associativity per level) PrecClimber must return exactly the S-expression of an independent shunting-yard with the statement's binding powers; labels carry token positions, so equality implies every operator applied once and operand order preserved. Non-trivial: sequences of more than one token"));
     cov.insert("exhaustive".into(), json!(true));
     verdict::conclude(verdict::Report {
         property: "C13",
